@@ -18,7 +18,7 @@ from specs.ir import IRSpec, loop_spec
 from pyvc.se import R, B, Unsupported
 
 FILES = {'HRef': 'spydrnet/util/hierarchical_reference.py'}
-FUNCTIONS = [('HRef', 'is_valid', 'getter', [])]
+FUNCTIONS = [('HRef', 'is_valid', 'getter', []), ('HRef', '__eq__', 'method', [('other', 'any')])]
 
 
 class HRefSpec(IRSpec):
@@ -74,7 +74,15 @@ def extra_pre(ctx, spec, h0):
     c = ctx
     x = Const('xq_hp', c.Ref)
     hp = h0['hr_parent'][x]; it = h0['hr_item'][x]
-    return [definition_of_valid(c, h0),
+    SM = same_fn(c); z = Const('zq_rf', c.Ref)
+    okz = Or(z == c.null, And(h0['alloc'][z], c.isa(z, 'HRef')))
+    # reflexivity of "same path": by induction over the (finite, acyclic) parent chain; base and step are discharged as obligations of
+    # HRef.__eq__ (post_eq: induction.*), the induction principle itself is the assumption "chains are finite"
+    reflexive = ForAll([z], Implies(okz, SM(z, z)), patterns=[SM(z, z)])
+    return [definition_of_valid(c, h0), definition_of_same(c, h0), reflexive,
+            # the items of reference nodes are instances, ports, cables, wires and inner pins: compared by identity (an OuterPin, whose == is
+            # structural, is never the item of a node)
+            ForAll([x], Implies(And(h0['alloc'][x], c.isa(x, 'HRef')), Not(c.isa(h0['hr_item'][x], 'OuterPin'))), patterns=[h0['hr_item'][x]]),
             # nodes are well-typed: the parent is None or a node, the item is None or an allocated object that is not a node
             ForAll([x], Implies(And(h0['alloc'][x], c.isa(x, 'HRef')), And(Or(hp == c.null, And(h0['alloc'][hp], c.isa(hp, 'HRef'))),
                                                                             h0['alloc'][it], Not(c.isa(it, 'HRef')))), patterns=[h0['hr_parent'][x], h0['hr_item'][x]])]
@@ -85,6 +93,55 @@ def _inv_is_valid(lv):
     c = lv.ctx; h = lv.h; V = valid_fn(c)
     self_ = lv.env['self'][1]; cur = lv.cur['href'][1]
     return [('C11', 'walk', If(cur == c.null, Not(V(self_)), And(h['alloc'][cur], c.isa(cur, 'HRef'), V(self_) == V(cur))))]
+
+
+def same_fn(ctx):
+    if not hasattr(ctx, '_hsame'): ctx._hsame = Function('href_same_path', ctx.Ref, ctx.Ref, BoolSort())
+    return ctx._hsame
+
+
+def definition_of_same(ctx, h):
+    """two chains of nodes denote the same path: both exhausted together, and item by item the same element"""
+    c = ctx; SM = same_fn(c)
+    x, y = Const('xq_sm', c.Ref), Const('yq_sm', c.Ref)
+    body = If(Or(x == c.null, y == c.null), And(x == c.null, y == c.null),
+              And(h['hr_item'][x] == h['hr_item'][y], SM(h['hr_parent'][x], h['hr_parent'][y])))
+    ok = lambda z: Or(z == c.null, And(h['alloc'][z], c.isa(z, 'HRef')))
+    return ForAll([x, y], Implies(And(ok(x), ok(y)), SM(x, y) == body), patterns=[SM(x, y)])
+
+
+@loop_spec('HRef.__eq__', 0, 'while', [], {'this': 'ref', 'that': 'ref'})
+def _inv_eq(lv):
+    c = lv.ctx; h = lv.h; SM = same_fn(c)
+    self_ = lv.env['self'][1]; other = lv.env['other'][1]
+    a, b = lv.cur['this'][1], lv.cur['that'][1]
+    ok = lambda z: Or(z == c.null, And(h['alloc'][z], c.isa(z, 'HRef')))
+    return [('C11', 'walk-in-step', And(ok(a), ok(b), SM(self_, other) == SM(a, b)))]
+
+
+def post_eq(ctx, spec, h0, s, ekind, args, val):
+    c = ctx; SM = same_fn(c); self_ = args[0][1]; other = args[1][1]
+    if ekind != 'normal':
+        return [('C11', 'does-not-raise', BoolVal(False))]
+    out = [('C11', 'netlist-untouched', And([s.heap[f_] == h0[f_] for f_ in h0 if f_ in s.heap and not f_.startswith(('t:', 'l:', 'lh:', 'lv:'))
+                                              and not (s.heap[f_] is h0[f_])] or [BoolVal(True)]))]
+    if val is None or val[0] != 'bool':
+        return out + [('C11', 'returns-a-bool', BoolVal(False))]
+    out.append(('C11', 'equal-iff-a-reference-to-the-same-path', val[1] == And(c.isa(other, 'HRef'), SM(self_, other))))
+    return out
+
+
+def induction_lemmas(ctx, h0):
+    """base and step of the induction behind the reflexivity assumption, from the definition of `same path` alone"""
+    from pyvc.verify import discharge
+    c = ctx; SM = same_fn(c)
+    z = Const('z_ind', c.Ref)
+    d = [definition_of_same(c, h0)]
+    wt = Const('xq_wt', c.Ref)
+    typed = ForAll([wt], Implies(And(h0['alloc'][wt], c.isa(wt, 'HRef')), Or(h0['hr_parent'][wt] == c.null, And(h0['alloc'][h0['hr_parent'][wt]], c.isa(h0['hr_parent'][wt], 'HRef')))),
+                   patterns=[h0['hr_parent'][wt]])
+    return [('C11/HRef.__eq__/induction/base: the empty chain is the same path as itself', d, SM(c.null, c.null)),
+            ('C11/HRef.__eq__/induction/step: a node is the same path as itself if its parent is', d + [typed, h0['alloc'][z], c.isa(z, 'HRef'), SM(h0['hr_parent'][z], h0['hr_parent'][z])], SM(z, z))]
 
 
 def post(ctx, spec, h0, s, ekind, args, val):
@@ -102,4 +159,4 @@ def post(ctx, spec, h0, s, ekind, args, val):
     return out
 
 
-POSTS = {'HRef.is_valid': post}
+POSTS = {'HRef.is_valid': post, 'HRef.__eq__': post_eq}
